@@ -296,6 +296,44 @@ func FamilyUpdate(thorough bool) []*Conv {
 			Spec: &Spec{Update: &u, Pairs: map[string]*PairSpec{"PFXIn→PFXOut": {Fields: map[string]*FieldSpec{"Keep": {Ignore: true}, "Only": {Ignore: true}}}}},
 		})
 	}
+	// a field filled by a function without source parameter inside an update method (nothing to compare with zero)
+	for _, cats := range []int{0, 1, 7} {
+		n++
+		u := &UpdateSpec{SkipBasic: cats&1 != 0, SkipStruct: cats&2 != 0, SkipNillable: cats&4 != 0}
+		var lines []string
+		switch cats {
+		case 1:
+			lines = []string{"update:ignoreZeroValueField:basic"}
+		case 7:
+			lines = []string{"update:ignoreZeroValueField"}
+		}
+		out = append(out, &Conv{
+			ID:      fmt.Sprintf("update/noargfunc/c%d", cats),
+			Family:  "update",
+			Format:  []string{"struct", "function", "variable"}[n%3],
+			Params:  "source PFXIn, target *PFXOut",
+			Results: []string{"", "error"}[n%2],
+			Decls:   "type PFXIn struct {\n\tA int\n\tKeep int\n}\ntype PFXOut struct {\n\tA int\n\tStamp string\n\tKeep int\n\tOnly string\n}\nfunc PFXGen() string { return \"\" }\n",
+			MethodLines: append([]string{"update target", "ignore Keep Only", "map Stamp | PFXGen"}, lines...),
+			Spec: &Spec{Update: u, Pairs: map[string]*PairSpec{"PFXIn→PFXOut": {Fields: map[string]*FieldSpec{"Keep": {Ignore: true}, "Only": {Ignore: true}, "Stamp": {Fn: "PFXGen", FnNoSource: true}}}}},
+		})
+	}
+	// an update method whose struct pair contains itself by value, next to a declared method of the pointer family
+	// that carries field settings: the overlap is reported (a diagnostic, not a crash)
+	for _, f := range []string{"struct", "function", "variable"} {
+		extra := "\t// goverter:ignore Kids\n\tPFXToPtr(source PFXIn) *PFXOut\n"
+		if f == "variable" {
+			extra = "\t// goverter:ignore Kids\n\tPFXToPtr func(source PFXIn) *PFXOut\n"
+		}
+		out = append(out, &Conv{
+			ID: "update/fail_overlap_selfcontained/" + f, Family: "update", Format: f, Solo: true,
+			Params: "source *PFXIn, target *PFXOut", Results: "",
+			Decls:        "type PFXIn struct {\n\tKids []PFXIn\n\tN int\n}\ntype PFXOut struct {\n\tKids []PFXOut\n\tN int\n}\n",
+			MethodLines:  []string{"update target"},
+			ExtraMethods: extra,
+			Spec:         &Spec{}, ExpectFail: true, FailNote: "field settings on a declared method that the update method's inline struct conversion would bypass",
+		})
+	}
 	// enum-typed fields belong to the basic category
 	for cats := 0; cats < 8; cats++ {
 		if !thorough && cats != 0 && cats != 1 && cats != 6 && cats != 7 {
